@@ -36,7 +36,7 @@ LEVEL_TEXT = (
 LEVEL_NOTE = (
     "Partial: the end-to-end equation (lower, apply, reduce = denotation) is proved for the integer, the lovelace and "
     "the declared-asset fragments (asset values read from inputs, AnyAsset and property access are per case); records with spread, property access, inputs, selection and the Cardano compiler are compared "
-    "with [[.]] per case (compile exactness on constant IR is C02's theorems). min_utxo, slot/time built-ins, "
+    "with [[.]] per case (compile exactness on constant IR is C02's theorems). min_utxo, "
     "collateral, policies with scripts and chain-specific directives are not generated yet; names are unique, so "
     "shadowing between scopes is not exercised."
 )
